@@ -414,6 +414,35 @@ def fresh_threads(solve, threads):
                    % (solve, threads, e), nontrivial=_nontrivial(a), key="threads-change-result")
 
 
+@S.kind("thread-sweep")
+def thread_sweep(nlx, nly, threads, footprint):
+    """One small solve with `threads` numerical threads against the same solve with one thread, in this process.  The number
+    of marched Fourier components is nlx*nly - 1: thread counts and mode counts are swept so that every remainder of that
+    number modulo the thread count (and quotients that are / are not multiples of 8) occurs -- work split into per-thread
+    blocks must cover the last, incomplete block."""
+    import bldfm.config as cfg
+    from bldfm.solver import steady_state_transport_solver
+    rng = np.random.default_rng(1000 * nlx + nly)
+    nx, ny = max(nlx, 8), max(nly, 6)
+    q0 = rng.random((ny, nx))
+    z, prof = default_profiles(n=6, zm=4.0, wind=(2.5, -1.5), ustar=0.35, mol=-80.0, closure="MOST")
+    kw = dict(srf_flx=q0, z=z, profiles=prof, domain=(nx * 10.0, ny * 7.5), levels=[2, 6], modes=(nlx, nly),
+              meas_pt=((3 * 10.0, 2 * 7.5) if footprint else (0.0, 0.0)), srf_bg_conc=0.0 if footprint else 0.4,
+              footprint=footprint, halo=0.0, precision="double")
+    out = {}
+    try:
+        for t in (1, threads):
+            _normalise()
+            cfg.NUM_THREADS = int(t)
+            _, conc, flx = steady_state_transport_solver(**kw)
+            out[t] = (np.asarray(conc), np.asarray(flx))
+    finally:
+        _normalise()
+    e = max(float(np.max(np.abs(out[threads][k] - out[1][k])) / max(float(np.max(np.abs(out[1][k]))), 1e-300)) for k in (0, 1))
+    return Verdict(e <= TOL_ROUND, "modes (%d,%d) = %d marched components, %d threads vs 1 thread (%s): rel %.3g"
+                   % (nlx, nly, nlx * nly - 1, threads, "footprint" if footprint else "dispersion", e), key="threads-change-result")
+
+
 @S.kind("args-not-mutated")
 def args_not_mutated(solve, threads):
     """Arguments before and after one call (all six solves plus the twins)."""
@@ -466,6 +495,12 @@ def generate(tier, rng):
         for t in threads:
             if t != 1:
                 yield "fresh-threads", dict(solve=s, threads=t)
+    k = 0
+    for t in _available([2, 3, 4, 5, 6, 7, 8] if thorough else [2, 3, 4, 8]):
+        for nlx, nly in ((4, 4), (6, 6), (6, 4), (8, 6), (10, 6), (10, 10), (12, 8), (14, 10), (16, 12), (18, 18), (30, 30)):
+            k += 1
+            if thorough or k % 2 or (nlx * nly - 1) // t % 8 == 0:
+                yield "thread-sweep", dict(nlx=nlx, nly=nly, threads=t, footprint=bool(k % 3 == 0))
     for what in INPLACE:
         yield "history-inplace", dict(what=what)
     for s_ in ("A-fp-s", "B-disp-d", "B-fp-d", "A-disp-d"):
